@@ -5,14 +5,15 @@ import re
 
 from . import tlc
 from .common import SPEC, MachineryError
-from .rungrid_world import GROUP_TLA
+from .rungrid_world import GROUP_TLA, GROUPS
 
 
 def _cfg(geo, nstep, acc, sorted_listing, diagnose):
     tmpl = open(os.path.join(SPEC, "RunGridTrace.cfg.tmpl")).read()
     return tmpl % dict(D=geo.D, N=geo.N, NDIV=geo.NDIV, LMAX=geo.LMAX, GROUP=GROUP_TLA[geo.group], NSTEP=nstep,
                        ACC="TRUE" if acc else "FALSE", SORTED="TRUE" if sorted_listing else "FALSE",
-                       DIAG="TRUE" if diagnose else "FALSE")
+                       DIAG="TRUE" if diagnose else "FALSE",
+                       CELLSYM="FALSE" if GROUPS[geo.group].get("hex") else "TRUE")
 
 
 def _clean(ev):
